@@ -436,13 +436,13 @@ def run_case(w, case):
 
 
 def make_world(ctx, shard):
-    return ls.World(ctx, 'w%d' % shard, ls.port_base_for_check(ctx.pid, shard), conf=CONF)
+    return br.patient_world(ctx, 'w%d' % shard, ls.port_base_for_check(ctx.pid, shard), conf=CONF)
 
 
 def make_world_small(ctx, shard):
     """Same, but Squid's TCP socket buffers are 4 KB (tcp_recv_bufsize sets both directions) and so is the origin's
     receive buffer: an origin that does not read blocks Squid's upstream writes after a few KB."""
-    w = ls.World(ctx, 's%d' % shard, ls.port_base_for_check(ctx.pid, shard), conf=CONF + br.SMALLBUF_CONF)
+    w = br.patient_world(ctx, 's%d' % shard, ls.port_base_for_check(ctx.pid, shard), conf=CONF + br.SMALLBUF_CONF)
     br.shrink_listener(w.origin)
     return w
 
@@ -474,7 +474,7 @@ def run(ctx):
     build(ctx)
     cases = all_cases(ctx)
     r = ls.run_cases(ctx, [c for c in cases if c['fam'] != 'sloworigin'], run_case, make_world, key_of=key_of, determinism_n=10)
-    r2 = ls.run_cases(ctx, [c for c in cases if c['fam'] == 'sloworigin'], run_case, make_world_small, key_of=key_of, determinism_n=3)
+    r2 = ls.run_cases(ctx, [c for c in cases if c['fam'] == 'sloworigin'], run_case, make_world_small, key_of=key_of, determinism_n=3, nshards=4)
     r = br.merge_results(r, r2)
     oc = r['outcomes']
     complete = sum(v for k, v in oc.items() if ':complete' in k)
